@@ -7,7 +7,7 @@ ops
   reset                                     drop all tables and cached plans
   file <tbl> <h|d> <idx> <n> (<rid> <t_us> <c1_us> <c2_us> <v>)*n     add a file to a table
   lit <fmt> <y> <mo> <d> <hh> <mi> <ss> <fracNs> <offSec>             parseDateTime vs DuckDB cast
-  rel <+|-> <n> <unit>                      evaluateRelativeTime vs DuckDB interval arithmetic (at `now`)
+  rel <+|-> <n> <unit> <capS>               evaluateRelativeTime vs DuckDB interval arithmetic (at `now`)
   paths <startNs> <endNs>                   GeneratePartitionPaths
   ext <pred>                                ExtractTimeRange of `SELECT … WHERE <pred>`
   q|qc <qid> <kind> <hdr> <alias> <pred> [<pred>]      query (q: caches invalidated first; qc: caches kept)
@@ -15,7 +15,7 @@ ops
 pred := A <batom> | & <pred> <pred> | | <pred> <pred> | ! <pred>
 batom := c <col> <op> <rhs> | b <col> <rhs> <rhs>
 col := t | q | e | s | v        op := ge | gt | lt | le
-rhs := L <fmt> <y> <mo> <d> <hh> <mi> <ss> <fracNs> <offSec> | R <+|-> <n> <unit> | N <k>
+rhs := L <fmt> <y> <mo> <d> <hh> <mi> <ss> <fracNs> <offSec> | R <+|-> <n> <unit> <capS 0|1> | N <k>
 -/
 open Arc.Proto Arc.C18 Arc.Generated.C18
 
@@ -49,9 +49,11 @@ def parseLit : List String → Option (Lit × List String)
 
 def parseRhs : List String → Option (Rhs × List String)
   | "L" :: rest => (parseLit rest).map fun (l, r) => (.lit l, r)
-  | "R" :: sg :: n :: u :: rest =>
+  | "R" :: sg :: n :: u :: cs :: rest =>
     match nat? n, parseUnit u with
-    | some n, some u => if sg == "+" then some (.rel true n u, rest) else if sg == "-" then some (.rel false n u, rest) else none
+    | some n, some u =>
+      if cs != "0" && cs != "1" then none else
+      if sg == "+" then some (.rel true n u (cs == "1"), rest) else if sg == "-" then some (.rel false n u (cs == "1"), rest) else none
     | _, _ => none
   | "N" :: k :: rest => (int? k).map fun k => (.num k, rest)
   | _ => none
@@ -208,11 +210,12 @@ def stepC18 (s : DS) (fs : List String) : DS × String :=
     match parseLit rest with
     | some (l, []) => (s, s!"go={optNs l.go} db={optNs l.db}")
     | _ => (s, "bad-op")
-  | ["rel", sg, n, u] =>
+  | ["rel", sg, n, u, cs] =>
     match nat? n, parseUnit u with
     | some n, some u =>
-      if sg != "+" && sg != "-" then (s, "bad-op") else
-      (s, s!"go={relGo s.now (sg == "+") n u} db={relDb s.now (sg == "+") n u}")
+      if (sg != "+" && sg != "-") || (cs != "0" && cs != "1") then (s, "bad-op") else
+      let r := Rhs.rel (sg == "+") n u (cs == "1")
+      (s, s!"go={optNs (r.go s.now)} db={r.db s.now}")
     | _, _ => (s, "bad-op")
   | ["paths", a, b] =>
     match int? a, int? b with
